@@ -228,6 +228,36 @@ def r19c(ctx):
                 muts.append(x)
             if isinstance(x, ast.Subscript) and isinstance(x.ctx, (ast.Store, ast.Del)) and dotted(x.value) in aliases | {"DEFAULT_GLOBALS"}:
                 muts.append(x)
+    # ... and nothing is kept on the Expression between evaluations: the same compiled expression is evaluated for every pair of
+    # nodes, so state stored on self (a merged scope, a memo of resolved names) makes the variables of one call resolvable in the next
+    kept = []
+    for fnode in (ev.node, gv.node):
+        self_alias = {"self"}
+        held = set()
+        for a_ in walk_no_nested(fnode):
+            if isinstance(a_, (ast.Assign, ast.AnnAssign)) and a_.value is not None and isinstance(a_.value, ast.Attribute) \
+                    and isinstance(a_.value.value, ast.Name) and a_.value.value.id == "self":
+                t_ = a_.targets[0] if isinstance(a_, ast.Assign) else a_.target
+                if isinstance(t_, ast.Name):
+                    held.add(t_.id)
+        for x in walk_no_nested(fnode):
+            if isinstance(x, ast.Attribute) and isinstance(x.ctx, ast.Store) and isinstance(x.value, ast.Name) and x.value.id == "self":
+                kept.append(x)
+            elif isinstance(x, ast.Call) and isinstance(x.func, ast.Attribute) and x.func.attr in ("update", "setdefault", "pop", "popitem", "clear", "append", "add", "extend") \
+                    and ((isinstance(x.func.value, ast.Attribute) and isinstance(x.func.value.value, ast.Name) and x.func.value.value.id == "self")
+                         or (isinstance(x.func.value, ast.Name) and x.func.value.id in held)):
+                kept.append(x)
+            elif isinstance(x, ast.Subscript) and isinstance(x.ctx, (ast.Store, ast.Del)) and (
+                    (isinstance(x.value, ast.Attribute) and isinstance(x.value.value, ast.Name) and x.value.value.id == "self")
+                    or (isinstance(x.value, ast.Name) and x.value.id in held)):
+                kept.append(x)
+    if kept:
+        ctx.violation("R19c", f, "Expression.eval", kept[0], "no state between evaluations",
+                      f"`{norm(kept[0], 60)}` stores on the Expression object while evaluating: a compiled expression is reused for every "
+                      f"candidate pair, so what one evaluation was given (its variables, or a local that shadowed a built-in) is still "
+                      f"resolvable in the next one that was not given it")
+    else:
+        ctx.proved("R19c", f, "Expression.eval", ev.node, "no state between evaluations", "eval() and get_value() store nothing on self")
     if muts:
         ctx.violation("R19c", f, "Expression.eval", muts[0], "whitelist is read-only",
                       f"`{norm(muts[0], 60)}` writes into the globals mapping, which is the shared DEFAULT_GLOBALS whitelist whenever "
